@@ -353,10 +353,23 @@ def o_text(case):
         labels.append("two-groups-accepted")
     if not any(l.startswith("got:") for l in labels):
         labels.append("got:nothing")
+    # text built by the reference encoders as a valid instance of one kind must be accepted by that kind's own entry point
+    # (faithfulness: a parser that refuses everything is total and keeps kinds apart, but parses nothing)
+    want = KIND_ENTRY.get(case.get("kind"))
+    if want is not None and not (code in GRS and want in GRS_STUBBED):
+        if results.get(want) is None and not any(b.startswith("raises:" + want) for b, _m in problems):
+            problems.append(("faithful:valid-%s-text-refused" % case["kind"], "%s parse.%s(%r) returned None for a valid %s text" % (code, want, text, case["kind"])))
     if problems:
         buckets = tuple(sorted({b for b, _m in problems}))
         raise Violation(buckets, " || ".join(m for _b, m in problems)[:900])
     return sorted(set(labels))
+
+
+KIND_ENTRY = {"p2pkh": "p2pkh", "p2sh": "p2sh", "p2wpkh": "p2pkh_segwit", "p2wsh": "p2sh_segwit", "p2tr": "p2tr", "wif-c": "wif", "wif-u": "wif",
+              "bip32_prv": "bip32_prv", "bip32_pub": "bip32_pub", "bip49_prv": "bip49_prv", "bip49_pub": "bip49_pub", "bip84_prv": "bip84_prv",
+              "bip84_pub": "bip84_pub", "sec-text": "sec", "electrum-prv": "electrum_prv", "electrum-pub": "electrum_pub",
+              "electrum-seed": "electrum_seed"}
+GRS_STUBBED = ()     # the Groestlcoin symbol files replace only address / hierarchical_key / private_key / public_key when the C module is missing
 
 
 def nt_text(case, labels):
@@ -602,7 +615,7 @@ def s_script():
 
 
 VALID_KINDS = ["p2pkh", "p2sh", "p2wpkh", "p2wsh", "p2tr", "wif-c", "wif-u", "bip32_prv", "bip32_pub", "bip49_prv", "bip49_pub", "bip84_prv", "bip84_pub",
-               "sec-text", "electrum-prv", "electrum-pub"]
+               "sec-text", "electrum-prv", "electrum-pub", "electrum-seed"]
 
 
 def cases_valid(tier):
@@ -632,6 +645,8 @@ def cases_valid(tier):
                     text = "E:" + _b32(k).hex()
                 elif kind == "electrum-pub":
                     text = "E:" + (_b32(pub[0]) + _b32(pub[1])).hex()
+                elif kind == "electrum-seed":
+                    text = "E:" + h[:16].hex()
                 if text is not None:
                     yield {"net": code, "text": text, "kind": kind}
 
